@@ -93,6 +93,54 @@ def analyse_all_closure(F, clo, map_term, weight_term):
     return None
 
 
+def probe_method_members(F, g, variants, exp):
+    """g: fn(&RankPair) -> CardPair.  For each variant in `variants` the combo g builds on that variant's path must be a member
+    of the variant's combo table; returns a problem text or None"""
+    from sa import dtree
+    try:
+        paths, gpr = dtree.enumerate_paths(g)
+    except dtree.NotLoopFree:
+        return f"{g.path} contains a loop"
+    seen = {}
+    for p in paths:
+        if p.end != "return":
+            continue
+        var = None
+        for (b, t, lab, ty, others) in p.conds:
+            if t[0] == "discr" and P.strip(t[1]) == ("param", 1):
+                if lab == "otherwise":
+                    names = set(I.adt_variants(F, RANK_PAIR)) - {I.variant_by_discr(F, RANK_PAIR, v) for v in others}
+                    var = names.pop() if len(names) == 1 else None
+                else:
+                    var = I.variant_by_discr(F, RANK_PAIR, lab)
+            else:
+                return f"{g.path} branches on something that is not the rank pair's variant"
+        if var is None:
+            return f"{g.path}: a path is not selected by the rank pair's variant"
+        r = P.strip(dtree.PathProv(g, p).local(0))
+        if not (r[0] == "call" and r[1] == CARD_PAIR + "::new" and len(r[2]) == 2):
+            return f"{g.path} does not return CardPair::new(..)"
+        cards = []
+        for c in r[2]:
+            c = P.strip(c)
+            if not (c[0] == "call" and c[1] == CARD + "::new" and len(c[2]) == 2):
+                return f"{g.path}: a card of the probe is not Card::new(rank, suit)"
+            rk = P.strip(c[2][0])
+            if not (rk[0] == "field" and rk[1][0] == "variant" and P.strip(rk[1][1]) == ("param", 1) and rk[1][2] == var):
+                return f"{g.path}: a rank of the probe is not a field of the {var} variant"
+            cards.append((rk[2], variant_of(c[2][1])))
+        seen[var] = tuple(cards)
+    for v in variants:
+        combo = seen.get(v)
+        table = exp[v]
+        if combo is None:
+            return f"{g.path} has no path for {v}"
+        member = combo in table or (v == "Pocket" and tuple(sorted(combo, key=str)) in [tuple(sorted(x, key=str)) for x in table])
+        if not member:
+            return f"probe combo {combo} built by {g.path} is not one of the {len(table)} combos of {v}"
+    return None
+
+
 def run(ctx):
     ctx.explanation = ("static data clauses: the 6/4/12 combo tables are complete and duplicate-free; every probe combo is a member "
                        "of the table of the rank pair it probes and the all() that follows ranges over that same rank pair and "
@@ -219,6 +267,12 @@ def run(ctx):
                 takers = [n_ for n_ in takers if n_ != "as_slice"]        # a view, takes nothing
                 if sorted(takers) not in (["next"], ["all", "next"], ["all"], []):
                     problems.append(f"the pair's iterator is consumed by {sorted(takers)} before/besides the probe and all()")
+            elif probe[0] == "call" and probe[1] in F.fns and probe[1] != CARD_PAIR + "::new" and len(probe[2]) == 1 and P.strip(probe[2][0]) == key \
+                    and F.fns[probe[1]].local_ty(0) == CARD_PAIR:
+                # the probe combo comes from a method of the rank pair (`pair.representative()`): decoded per variant arm
+                why_ = probe_method_members(F, F.fns[probe[1]], [e_[1].rsplit("::", 1)[-1] for e_ in elems], exp)
+                if why_:
+                    problems.append(why_)
             elif not (probe[0] == "call" and probe[1] == CARD_PAIR + "::new"):
                 problems.append("probe is not CardPair::new(..)")
             else:
